@@ -87,6 +87,22 @@ package rules
 //     decided on paths; live-map operations and wrapper calls are searched over the reach;
 //   - wrapper / sync.Map calls through a method value bound once to a local are resolved.
 //
+// Second robustness set (/verif/preserving/C20/r5..r8, C11/r6 → all exit 0; detection re-checked with 18
+// mutants on top of r5/r6/r8, script /tmp/vw/C20/out/mutants9.py):
+//   - operands of Equals / Kind comparisons are followed through named locals (`newSpec := entity.Spec()`),
+//     through same-package predicates (kindChanged(prev, entity)) and closures held in a local: they are
+//     read with the parameters standing for the arguments and interpreted in place; a comparison hidden
+//     in a function the rule cannot read makes the table undecided, not violated;
+//   - the diff may live in a same-package function applyConfig calls (found by role: ranges over
+//     ObjectRegistry.entities and over its own map parameter); the three classification maps may be
+//     locals, parameters or fields of a struct carried from the diff to the notification;
+//   - callbacks moved out of a wrapper into an unexported helper: the helper's same-package callers
+//     (call outside loops and literals) are judged as the wrappers, with the helper interpreted in place;
+//   - a handler may receive the three maps instead of the event (class = what the callers pass); the
+//     entity keeps its identity across the parameters of same-package helpers it is handed to
+//     (UpdateTrafficGate → updateObject(kind, namespace, entity)); a live map reached through an
+//     accessor/local is identified by its receiver expression.
+//
 // Known not to be caught (not claimed): TrafficController.Create* for an already existing name;
 // dropping the watcher.filter test; Update loop before Create loop; anything inside a kind's own
 // Init/Inherit/Close.
@@ -263,6 +279,26 @@ func c20Origin(f *flow.Func, v *types.Var) *types.Var {
 	return v
 }
 
+// c20DerivRoot is the variable a value is derived from: the root variable of e, followed through
+// locals that are defined once from an expression rooted at another variable
+// (`newSpec := entity.Spec()` → entity; `prev := loaded.(*ObjectEntity)` → loaded). For operands
+// of comparisons (Equals, Kind) — not for the identity of an entity.
+func c20DerivRoot(f *flow.Func, e ast.Expr) *types.Var {
+	v := c20Root(f, e)
+	for depth := 0; v != nil && depth < 4; depth++ {
+		defs := c20Defs(f, c20DeclNodeOf(f, v), v)
+		if len(defs) != 1 || defs[0].rhs == nil {
+			return v
+		}
+		w := c20Root(f, defs[0].rhs)
+		if w == nil || w == v {
+			return v
+		}
+		v = w
+	}
+	return v
+}
+
 // c20RootOrigin = origin of the root variable of an expression.
 func c20RootOrigin(f *flow.Func, e ast.Expr) *types.Var {
 	return c20Origin(f, c20Root(f, e))
@@ -310,6 +346,10 @@ func c20SyncMapOp(f *flow.Func, call *ast.CallExpr) (string, ast.Expr) {
 func c20MethodCall(f *flow.Func, call *ast.CallExpr) (*types.Func, ast.Expr) {
 	if fnObj, ok := f.Callee(call).(*types.Func); ok {
 		if sel, ok := ast.Unparen(call.Fun).(*ast.SelectorExpr); ok {
+			return fnObj, sel.X
+		}
+		// resolved through a method value held in a local: the receiver is in its definition
+		if sel, ok := ast.Unparen(f.FuncValue(call.Fun)).(*ast.SelectorExpr); ok {
 			return fnObj, sel.X
 		}
 		return fnObj, nil
@@ -484,6 +524,10 @@ func c20Recovery(c *core.Ctx) {
 		pkg   *packages.Package
 		fd    *ast.FuncDecl
 		sites []*ast.CallExpr
+		// helpers: same-package functions between the wrapper and the sites (the callbacks were
+		// moved into an unexported helper the wrapper calls once, outside any loop); they are
+		// interpreted in place
+		helpers map[*types.Func]bool
 	}
 	var wrappers []*wrapper
 	eachFunc(c, func(pkg *packages.Package, fd *ast.FuncDecl) {
@@ -531,9 +575,14 @@ func c20Recovery(c *core.Ctx) {
 			}
 		}
 	})
-	for _, w := range wrappers {
+	// judge analyses one wrapper; quiet = only tell whether every panic is recovered
+	judge := func(w *wrapper, quiet bool) bool {
 		f := flow.NewFunc(w.pkg, w.fd)
 		c.Count("functions_analysed", 1)
+		var inline func(*ast.CallExpr, *types.Func) *flow.Func
+		if len(w.helpers) > 0 {
+			inline = inlineIf(f, func(callee *types.Func, g *flow.Func) bool { return w.helpers[callee] })
+		}
 		isSite := map[*ast.CallExpr]bool{}
 		for _, s := range w.sites {
 			isSite[s] = true
@@ -541,6 +590,7 @@ func c20Recovery(c *core.Ctx) {
 		const evCb, evCb2 = "ev:callback", "ev:callback-twice"
 		const evRecDefer, evOpaqueDefer = "ev:recovering-defer", "ev:opaque-defer"
 		res := analyze(c, f, flow.Config{
+			Inline:   inline,
 			NoHavoc:  true,
 			MayPanic: func(call *ast.CallExpr, callee types.Object) bool { return isSite[call] },
 			OnNode: func(st *flow.State, n ast.Node) {
@@ -565,7 +615,15 @@ func c20Recovery(c *core.Ctx) {
 			},
 		})
 		if res == nil {
-			continue
+			return false
+		}
+		if quiet {
+			for _, ex := range res.Exits {
+				if ex.Kind == flow.ExitPanic && !ex.State.Is(evRecDefer, flow.True) {
+					return false
+				}
+			}
+			return true
 		}
 		// the wrapper is the only way the handlers reach the callback: every path that does not
 		// end in a (recovered) panic must have invoked it exactly once. A guard on the callback's
@@ -626,7 +684,7 @@ func c20Recovery(c *core.Ctx) {
 		if bad.why == "" && opaque != nil {
 			c.Undecide("R-C20-1", declName(w.pkg, w.fd)+"|panic of the callback is recovered", pos(c, w.fd),
 				"the wrapper defers a function value / a function outside the package that the rule cannot inspect for recover()")
-			continue
+			return false
 		}
 		recovered := bad.report(c, "R-C20-1", declName(w.pkg, w.fd)+"|panic of the callback is recovered", w.fd,
 			sprintf("%d exits (normal and panicking callback) all end in a normal return after the deferred recover", bad.n))
@@ -639,6 +697,62 @@ func c20Recovery(c *core.Ctx) {
 				perMethod[s.Fun.(*ast.SelectorExpr).Sel.Name]++
 			}
 		}
+		return recovered
+	}
+	// lift: a function that holds callback sites but does not recover itself, is unexported and is
+	// only called (outside loops and literals) from same-package functions, is a helper of those
+	// callers — they are the wrappers (two levels at most)
+	for round := 0; round < 2; round++ {
+		var next []*wrapper
+		for _, w := range wrappers {
+			if judge(w, true) {
+				next = append(next, w)
+				continue
+			}
+			fnObj, _ := w.pkg.TypesInfo.Defs[w.fd.Name].(*types.Func)
+			var callers []*wrapper
+			liftable := fnObj != nil && !fnObj.Exported()
+			if liftable {
+				for _, file := range w.pkg.Syntax {
+					for _, d := range file.Decls {
+						fd2, ok := d.(*ast.FuncDecl)
+						if !ok || fd2.Body == nil || fd2 == w.fd {
+							continue
+						}
+						g := flow.NewFunc(w.pkg, fd2)
+						for _, call := range calls(fd2.Body, true) {
+							if fo, ok := g.Callee(call).(*types.Func); !ok || fo != fnObj {
+								continue
+							}
+							inLit := false
+							pm := parentMap(fd2)
+							for p := pm[call]; p != nil; p = pm[p] {
+								if _, ok := p.(*ast.FuncLit); ok {
+									inLit = true
+								}
+							}
+							if inLit || len(enclosingLoops(fd2.Body, call)) > 0 {
+								liftable = false
+							}
+							helpers := map[*types.Func]bool{fnObj: true}
+							for h := range w.helpers {
+								helpers[h] = true
+							}
+							callers = append(callers, &wrapper{pkg: w.pkg, fd: fd2, sites: w.sites, helpers: helpers})
+						}
+					}
+				}
+			}
+			if liftable && len(callers) > 0 {
+				next = append(next, callers...)
+			} else {
+				next = append(next, w)
+			}
+		}
+		wrappers = next
+	}
+	for _, w := range wrappers {
+		judge(w, false)
 	}
 	// vacuity: each callback has at least one wrapper site today (Init 2, Inherit 2, Close 1), and
 	// 15 kinds close their predecessor in Inherit
